@@ -37,6 +37,8 @@ def run(ctx):
     from .c20 import protocol_language
     protocol_language(ctx, "R1p")
     U.rule_qsl(ctx, "R8")
+    Q.rule_qsl_mappers(ctx, "R8m")
+    U.rule_punycode(ctx, "R8i")
     platform_query_order(ctx, "R9")
 
 
